@@ -3,10 +3,31 @@ from props import P
 P("C43",
   title="Spec/State validation admits only losslessly serializable types",
   design_ref="DESIGN.md §3 C43, §2.4 Lib/Json.v",
-  technique="Coq proof over a type universe (reflect descriptors) with an executable model of encoding/json + exact model/impl "
-            "correspondence on generated types and values by vm_compute",
-  level_text="placeholder",
-  level_note="placeholder",
-  assumptions=[],
-  trusted=[],
+  technique="Coq proof over a universe of reflect type descriptors with an executable model of encoding/json "
+            "(Lib/Json.v, lossless_sound) and of the reflective walk of modeling/validate.go; exact model/impl "
+            "correspondence on reflect.StructOf-generated and hand-written types and random values by vm_compute",
+  level_text="c43_sound_on_plain: for EVERY type descriptor accepted by the model of ValidateSpec/ValidateState that is plain (no "
+             "unexported non-skipped field, no omitempty on a slice/map, no two fields sharing a JSON name after embedded "
+             "promotion, no ,string option, only the hand-modelled custom marshalers) and EVERY well-formed value, "
+             "decode(encode v) = Some v (via Lib/JsonProofs.lossless_sound, induction over types and values, no size bound). "
+             "c43_rejects_hidden(+_nested,_in_slice): a struct with state only in unexported fields is rejected at the top, as "
+             "a field and as a slice element; c43_rejects_disallowed_kind, c43_spec_rejects_nested_struct. The unrestricted "
+             "statement is FALSE of the code: c43_mixed_fields_refuted, c43_duplicate_name_refuted, c43_omitempty_refuted give "
+             "accepted-yet-lossy witnesses (recorded known findings F-C43-1..3; the generator always includes them). "
+             "c43_model_agreement_implies_property links check_case to holds_on on plain types.",
+  level_note="Trusted: Coq kernel + vm_compute; the hand-written models of encoding/json (Lib/Json.v) and of validate.go "
+             "(C43/Model.v), both tied on every run: each generated type goes through the real ValidateSpec/ValidateState and 2-3 "
+             "random values of it through the real json.Marshal/Unmarshal, compared exactly with the model's verdict and "
+             "round-trip result; the reflect.Type -> descriptor translator (harness/internal/jm). Not modelled: ,string / "
+             "omitzero options (flagged, excluded from plain), case-insensitive key matching and duplicate object keys on "
+             "decode (never produced by the encoder), float text (opaque tokens), recursive types (the real validator does not "
+             "terminate on them; not generated).",
+  assumptions=["a Go value is represented by its tree of field values; slices/maps distinguish nil from empty; map values are "
+               "listed in the order encoding/json emits them (sorted by key text)",
+               "well-formed values: integers within their kind, strings valid UTF-8, floats finite and not -0 "
+               "(opaque tokens), json:\"-\" fields are outside the value by the code's own declaration"],
+  trusted=["modelled, not verified: modeling/validate.go (validateValue, validateFieldType, validateStructType, "
+           "serializesToEmpty); encoding/json Marshal/Unmarshal for the kinds the validator accepts (Lib/Json.v)",
+           "reflect.StructOf cannot build embedded unexported structs or methods: those shapes are hand-written types in "
+           "harness/internal/c43"],
   )
